@@ -632,7 +632,7 @@ func (c *Canary) handleTCP(eh *ethernet.Frame, iph *ipv4.Header, data []byte) er
 		// over the FIN, and Option an acknowledgment for the FIN.  Note that
 		// FIN implies PUSH for any segment text not yet delivered to the
 		// user.
-		state.RecvNext = hdr.SeqNum
+		state.RecvNext = hdr.SeqNum + uint32(len(hdr.Payload))
 
 		if state.State == SocketSynReceived || state.State == SocketEstablished {
 			// Enter the CLOSE-WAIT state.
